@@ -313,3 +313,13 @@ Proof.
     unfold exec. assert (X : nth_error (actors st) j = None) by (apply nth_error_None; auto). rewrite X. auto. }
   rewrite (stuck_all_done _ HI HK Hstuck _ _ Hi) in Hd. discriminate.
 Qed.
+
+Lemma single_snapshot_all : forall l st, forallb fresh l = true -> reach correct (init_state l) st ->
+  (forall j1 j2 f1 f2, nth_error (actors st) j1 = Some (AF f1) -> nth_error (actors st) j2 = Some (AF f2) ->
+     fl_ph f1 <> F0 -> fl_ph f2 <> F0 -> j1 = j2) /\
+  (forall m, snap (sh st) = Some m -> fmid (actors st) = true) /\
+  (forall j f m, nth_error (actors st) j = Some (AF f) -> (fl_ph f = F1 m \/ fl_ph f = F2 m) -> snap (sh st) = Some m).
+Proof.
+  intros l st Hl R. destruct (inv1_reach _ _ Hl R) as [_ [Hf [Hu Hsm]] _ _]. split; [exact Hu|]. split; [exact Hsm|].
+  intros j f m Hj [P|P]; specialize (Hf _ _ Hj); rewrite P in Hf; tauto.
+Qed.
